@@ -39,6 +39,9 @@ enum Kind {
     /// 1100 writes in one shard drained as one backlog (two journal-sized batches) while the
     /// first batch's record write fails three times; then the device works again
     BacklogAfterFailedBatch,
+    /// n values of `mib` MiB each in one shard, drained at once: a burst that fills the
+    /// write buffer by *size* (16 MiB), not by count; then one more small write
+    SizeBurst(u8, u8),
 }
 
 #[derive(Clone, Copy, Debug, PartialEq)]
@@ -85,7 +88,11 @@ struct CaseResult {
 fn run_case(workers: usize, shard: usize, kind: Kind, nb: Neighbours) -> CaseResult {
     let mut res = CaseResult { problems: Vec::new(), machinery: None, rounds: 0 };
     let big = matches!(kind, Kind::Burst | Kind::TickOnFullChannel | Kind::BatchOf(_) | Kind::BacklogAfterFailedBatch);
-    let mut cfg = Cfg::persistent(if big { 1300 } else { 64 });
+    let mut cfg = Cfg::persistent(match kind {
+        Kind::SizeBurst(n, mib) => (n as u64 + 1) * (mib as u64 * 256 + 2) + 64,
+        _ if big => 1300,
+        _ => 64,
+    });
     cfg.workers = workers;
     cfg.ttl = kind == Kind::Sweep;
     cfg.cache = false;
@@ -104,7 +111,7 @@ fn run_case(workers: usize, shard: usize, kind: Kind, nb: Neighbours) -> CaseRes
     }
     // a key for every shard
     let mut key_of: Vec<Vec<Vec<u8>>> = vec![Vec::new(); shards];
-    let want_per_shard = if big { 1101 } else if kind == Kind::Trickle { 8 } else { 2 };
+    let want_per_shard = if big { 1101 } else if kind == Kind::Trickle { 8 } else if let Kind::SizeBurst(n, _) = kind { n as usize + 1 } else { 2 };
     let mut i = 0u32;
     while key_of.iter().enumerate().any(|(s, v)| v.len() < if s == shard { want_per_shard } else { 2 }) {
         let k = format!("key-{i}").into_bytes();
@@ -267,6 +274,26 @@ fn run_case(workers: usize, shard: usize, kind: Kind, nb: Neighbours) -> CaseRes
             st.insert(late, b"after the batch").unwrap();
             expect_present.push((late.clone(), b"after the batch".to_vec()));
         }
+        Kind::SizeBurst(n, mib) => {
+            // nothing is taken by a worker before all of it is buffered: one drain of n * mib MiB
+            sut.sess.hold_workers.store(true, Ordering::SeqCst);
+            for (i, k) in key_of[shard][..n as usize].iter().enumerate() {
+                let mut v = vec![0x40 + i as u8; mib as usize * 1024 * 1024 - 100];
+                v[0] = i as u8;
+                st.insert(k, &v).unwrap();
+                expect_present.push((k.clone(), v));
+            }
+            sut.sess.hold_workers.store(false, Ordering::SeqCst);
+            for _ in 0..2 {
+                if let Err(e) = one_round(&sut) {
+                    res.problems.push(format!("C19: {kind:?} on shard {shard} of {workers}: {e}"));
+                    return res;
+                }
+            }
+            let late = &key_of[shard][n as usize];
+            st.insert(late, b"after the burst").unwrap();
+            expect_present.push((late.clone(), b"after the burst".to_vec()));
+        }
         Kind::TickOnFullChannel => {
             sut.sess.hold_workers.store(true, Ordering::SeqCst);
             for k in &key_of[shard][..1100] {
@@ -404,6 +431,14 @@ pub fn check(tier: &str, budget_s: f64, report: &mut Report) {
             cases.push((2, 1, Kind::BatchOf(n), Neighbours::Idle));
         }
     }
+    // bursts that fill the write buffer by size: just below, at and above 16 MiB in one drain
+    for (n, mib) in [(5u8, 4u8), (9, 2), (4, 4), (3, 4)] {
+        cases.push((1, 0, Kind::SizeBurst(n, mib), Neighbours::Idle));
+    }
+    if thorough {
+        cases.push((2, 1, Kind::SizeBurst(5, 4), Neighbours::Idle));
+        cases.push((1, 0, Kind::SizeBurst(34, 1), Neighbours::Idle));
+    }
     let n = cases.len();
     let dl = crate::util::Deadline::new(budget_s);
     let done = AtomicU64::new(0);
@@ -450,6 +485,7 @@ pub fn debug_case(workers: usize, shard: usize, kind: &str) -> i32 {
         "trickle" => Kind::Trickle,
         "idle" => Kind::OverwriteAfterIdle,
         "backlog" => Kind::BacklogAfterFailedBatch,
+        "sizeburst" => Kind::SizeBurst(5, 4),
         k if k.starts_with("batch") => Kind::BatchOf(k[5..].parse().unwrap_or(509)),
         "insert" => Kind::Insert,
         "overwrite" => Kind::Overwrite,
